@@ -231,3 +231,45 @@ package table
 //@   assert[index-checksum-verified] before call readTableIndex : called(VerifyChecksum#1) && ret(VerifyChecksum#1) == nil
 //@   assert[filter-presence-recorded] before return : result1 == nil ==> called(BloomFilterBytes#1) && (t.hasBloomFilter <==> len(ret(BloomFilterBytes#1)) > 0)
 
+// ---- seeking inside a table (C18, decision level) ----
+
+// blockIterator.seek: binary search over the block's entries for the first one whose key is at
+// or after the target (entries before the start index never qualify), then positioned there.
+//@ func (*blockIterator).seek
+//@   props C18 C05
+//@   light
+//@   assert[search-over-all-entries] before call Search : arg0 == len(itr.entryOffsets)
+//@   assert[positioned-at-found-entry] before call setIdx : arg0 == itr && arg1 == ret(Search#1)
+
+//@ func (*blockIterator).seek.$1
+//@   props C18 C05
+//@   light
+//@   assert[before-start-never] before return#1 : !result && idx < startIndex
+//@   assert[compare-entry-key-with-target] before call CompareKeys : arg0 == itr.key && arg1 == key && called(setIdx#1)
+//@   assert[at-or-after-target] before return#2 : result <==> ret(CompareKeys#1) >= 0
+
+// Iterator.seekFrom: the block is chosen by binary search for the first block whose first key is
+// strictly after the target; the previous block is searched first, and the found block only
+// when the previous one has nothing at or after the target.
+//@ func (*Iterator).seekFrom
+//@   props C18 C05
+//@   light
+//@   assert[search-over-all-blocks] before call Search : arg0 == ret(offsetsLength#1)
+//@   assert[first-block-when-all-after-target] before call seekHelper#1 : ret(Search#1) == 0 && arg1 == 0 && arg2 == key
+//@   assert[previous-block-first] before call seekHelper#2 : arg1 == ret(Search#1) - 1 && arg2 == key && ret(Search#1) != 0
+//@   assert[next-block-only-when-previous-exhausted] before call seekHelper#3 : arg1 == ret(Search#1) && arg2 == key && itr.err == io.EOF
+//@   assert[reset-when-from-origin] before call reset : whence == origin
+
+//@ func (*Iterator).seekFrom.$1
+//@   props C18 C05
+//@   light
+//@   assert[block-first-key-vs-target] before call CompareKeys : arg0 == ret(KeyBytes#1) && arg1 == key
+//@   assert[strictly-after-target] before return : result <==> ret(CompareKeys#1) > 0
+
+// seekForPrev: seek to at-or-after, and step back unless the target itself was found.
+//@ func (*Iterator).seekForPrev
+//@   props C18 C05
+//@   light
+//@   assert[seek-then-step-back] before call prev : called(seekFrom#1) && !ret(Equal#1)
+//@   assert[exact-match-test] before call Equal : arg0 == ret(Key#1) && arg1 == key
+
